@@ -8,7 +8,9 @@ SPEC = {
     'closure_dirs': ['theories/C01', 'theories/Generic', 'theories/Wire/Item.v', 'theories/Base/Outcome.v', 'theories/Gen/Consts.v',
                      'theories/Base/Word.v', 'theories/Base/FBits.v', 'theories/Gen/Leaf.v',
                      'theories/Wire/Simple.v', 'theories/Wire/SimpleProofs.v',
-                     'theories/Wire/Msgpack.v', 'theories/Wire/MsgpackProofs.v', 'theories/Wire/MsgpackRT.v'],
+                     'theories/Wire/Msgpack.v', 'theories/Wire/MsgpackProofs.v', 'theories/Wire/MsgpackRT.v',
+                     'theories/Wire/Cbor.v', 'theories/Wire/CborFloat.v', 'theories/Wire/CborProofs.v', 'theories/Wire/CborEnc.v',
+                     'theories/C10/CborSpec.v', 'theories/C10/CborConv.v'],
     'harness': 'c01',
     'args': {
         'quick': ['-model', 600, '-oracle', 4000],
